@@ -578,6 +578,11 @@ def check_attr_primal(world, rec):
     pts, exs = known_leaves(world, rec)
     nG = ans.G.shape[0]
     worst = 0.0
+    # After a dimension reduction the objective variable of the last problem is only bracketed
+    # (wc - tol <= objective <= metrics): the library gives the objective the value it stands for, the smallest
+    # performance metric of the returned instance (K-28 repair); the peer's number for that column is not it.
+    objective = getattr(rec.pep, "objective", None)
+    reduced = bool((rec.op.get("cfg") or {}).get("heuristic")) and len(rec.caps) >= 2
     for e in exs:
         if e.counter is None or e.counter >= len(ans.F):
             continue
@@ -588,6 +593,15 @@ def check_attr_primal(world, rec):
                                                                             "counter": e.counter})
             continue
         want = float(ans.F[e.counter])
+        if e is objective and reduced:
+            try:
+                want = min(float(world.allobj[m].eval()) for m in (rec.ledger_snapshot or {}).get("metrics", []))
+            except Exception:
+                continue
+            Fv = getattr(rec.pep, "F_value", None)
+            if Fv is not None and abs(float(np.asarray(Fv)[e.counter]) - want) > EPS_EXACT * (1.0 + abs(want)):
+                world.violation("O-ATTR-PRIMAL", "F_value-of-the-objective-is-not-the-smallest-metric",
+                                {"F_value": float(np.asarray(Fv)[e.counter]), "smallest_metric": want})
         err = abs(float(v) - want) / (1.0 + abs(want))
         worst = max(worst, err)
         if err > EPS_EXACT:
